@@ -67,6 +67,15 @@ theorem C15_body_starts_once {st st1 st2 st3 : St} (c : Ck) (h : applyEv st (.ac
     · exact absurd h2 (by simp)
   · exact absurd h (by simp)
 
+/-- C15 (precedence), FULL for the finer semantics in which jobs start, finish and fail *while* a poll is scanning -/
+theorem C15_precedence_interleaved {wf : Wf} {k : Option Nat} {sorted : List NodeId} (hw : WellFormed wf sorted)
+    {st : St} (hi : InstantI wf k sorted st) (c : Ck) (hc : st.w c ≠ .idle) :
+    st.futured.Nodup ∧
+    ∃ n, c ∈ (st.ns.get n).cks ∧ ∀ p, p ∈ wf.preds n → ∀ c', c' ∈ (st.ns.get p).cks → st.w c' = .ok := by
+  have hs := sinv_instantI hw hi
+  obtain ⟨n, hb, hu, hcn⟩ := hs.legit c (hs.touched c hc)
+  exact ⟨hs.futuredNodup, n, hcn, fun p hp c' hc' => (hs.ninv.preds n hb hu p hp).2 c' hc'⟩
+
 /-- what "later" means: environment moves and whole rounds only move the ground truth forward -/
 theorem C15_later_moves {st st' : St} (es : List Ev) (h : applyEvs st es = some st') : WMono st.w st'.w :=
   applyEvs_wmono es h
@@ -119,5 +128,25 @@ example : (match runAsync wfDiamond (some 2) [0, 1, 2, 3] schedDiamond with
 
 example : (runSync wfDiamond (some 2) [0, 1, 2, 3] (fun _ => false) 20).1 = .success ∧
     (runSync wfDiamond (some 2) [0, 1, 2, 3] (fun _ => false) 20).2.futured = [10, 11, 12, 20, 30] := by decide
+
+/-! ### why `get_runnable_tasks` returns the whole `queued` table
+
+One node with three jobs (checksums 0, 1, 2), `max_concurrent = 2`.  The real loop hands the third job out at the
+second poll.  A scan that returns only newly unblocked jobs hands out jobs 0 and 1, cuts job 2 off with `tasks[:2]`,
+and never returns it again: the sequential loop has no task, the node is never done, and the loop spins — with the
+fuel that provably suffices for the real loop (`C17_sync_terminates`: 2*3 + 2*1 + 3 = 11) and far beyond. -/
+
+def wfThree : Wf := ⟨⟨[0], [], [], none⟩, fun _ _ => [0, 1, 2], fun c => c⟩
+
+theorem C15_sync_hands_out_cut_jobs :
+    ((runSync wfThree (some 2) [0] (fun _ => false) 11).1, (runSync wfThree (some 2) [0] (fun _ => false) 11).2.futured)
+      = (SyncOutcome.success, [0, 1, 2]) := by decide
+
+/-- WITNESS (documentation): the "newly runnable only" variant loses job 2 and does not terminate -/
+theorem C15_new_only_loses_jobs :
+    ((runSyncNewOnly wfThree (some 2) [0] (fun _ => false) 60).1,
+     (runSyncNewOnly wfThree (some 2) [0] (fun _ => false) 60).2.futured,
+     ((runSyncNewOnly wfThree (some 2) [0] (fun _ => false) 60).2.ns.get 0).queued)
+      = (SyncOutcome.outOfFuel, [0, 1], [2]) := by decide
 
 end PydraModel.Sched
